@@ -148,6 +148,7 @@ structure St where
   writing : Option WriteJob := none    -- write in flight (piece channel suspended)
   wflag : List Bool := []              -- piece.Writing flags of the current generation
   fileExists : List Bool := []
+  known : List Bool := []              -- the storage has an entry for the file (it was opened once)
   bad : List (Nat × Nat) := []         -- (piece, file) sections on disk that do NOT hold the true bytes
   peers : List Peer := []
   dls : List Dl := []
@@ -164,6 +165,7 @@ structure St where
   mayStart : List Nat := []            -- peers for which startPieceDownloaderFor ran
   closedDl : List Nat := []            -- peers whose downloader was closed in this op
   persisted : Option (List Bool) := none   -- last bitfield written to the resume db
+  tainted : Bool := false              -- bytes were changed behind the client's back and not re-verified since
   deriving Repr, Inhabited
 
 def St.n (s : St) : Nat := s.cfg.n
@@ -176,7 +178,7 @@ def St.diskOK (s : St) : List Bool := (List.range s.n).map s.diskOKi
 /-- All (piece, file) pairs of non-padding sections. -/
 def Cfg.dataSects (c : Cfg) : List (Nat × Nat) :=
   (List.range c.n).flatMap fun i =>
-    ((c.sections i).filter fun sc => !(c.fpads.getD sc.file false)).map fun sc => (i, sc.file)
+    ((c.sections i).filter fun sc => !(c.fpads.getD sc.file false) && sc.len > 0).map fun sc => (i, sc.file)
 
 def St.status (s : St) : Status :=
   if !s.errC then .stopped
@@ -263,12 +265,19 @@ def St.stop (s : St) (err : Bool) : St :=
       { s with allocator := false, gateOpen := false,
                sto := s.sto ++ opened.map (fun i =>
                  s!"open:{fileName s.cfg i}:{s.cfg.flens.getD i 0}:" ++
-                   (if s.fileExists.getD i false then "existed" else "new")),
-               fileExists := s.fileExists.map (fun _ => true),
-               leaked := s.leaked + opened.length }
+                   (if s.fileExists.getD i false then "existed" else "new")) ++
+                 -- the dropped result's files are closed by the allocator itself (fix for F04)
+                 opened.map (fun i => "close:" ++ fileName s.cfg i),
+               fileExists := (List.range s.cfg.flens.length).map (fun i => s.fileExists.getD i false || opened.contains i),
+               known := (List.range s.cfg.flens.length).map (fun i => s.known.getD i false || opened.contains i),
+               leaked := s.leaked }
     else s
   let s := if s.verifier then { s with verifier := false, gateRead := false } else s
   { s with stopAnn := true }
+
+/-- `resetCompletion()` (torrent_pieces.go; introduced by the fix for finding F03). -/
+def St.resetCompletion (s : St) : St :=
+  if s.completed then { s with completed := false, completeCClosed := false } else s
 
 /-- `checkCompletion()` (torrent_pieces.go) -/
 def St.checkCompletion (s : St) : St × Bool :=
@@ -371,6 +380,16 @@ def firstMessages (s : St) (p : Peer) : List String :=
     | none => if p.fast then ["havenone"] else []
   bfMsg ++ (if p.ext then ["exths"] else [])
 
+/-- `markPaddingPieces()` (fix for finding F05): pieces without any block are done once their hash
+matches zeroes — which it does for the true content, padding being zeroes. -/
+def St.markPaddingPieces (s : St) : St :=
+  match s.bf with
+  | none => s
+  | some b =>
+    let idx := (List.range s.n).filter fun i => (s.cfg.blocks.getD i []).isEmpty && !(s.done.getD i false)
+    { s with done := idx.foldl (fun d i => setAt d i true) s.done,
+             bf := some (idx.foldl (fun d i => setAt d i true) b) }
+
 /-- `handleAllocationDone(al)` for a successful allocation. -/
 def handleAllocationDone (m : M) (hasExisting hasMissing : Bool) : M :=
   let m := onSt m fun s =>
@@ -379,28 +398,31 @@ def handleAllocationDone (m : M) (hasExisting hasMissing : Bool) : M :=
              done := List.replicate s.n false, wflag := List.replicate s.n false,
              peers := s.peers.map fun p => { p with has := List.replicate s.n false } }
   let ready (m : M) : M := onSt m fun s => ({ s with acceptor := true }).startDls
+  let fresh (m : M) : M :=
+    let m := onSt m fun s => (({ s with bf := some (List.replicate s.n false) }).resetCompletion).markPaddingPieces
+    let (s, c) := m.1.checkCompletion
+    let m : M := (s, m.2)
+    if c && m.1.cfg.stopAfter then onSt m (·.stop false) else ready m
   match m.1.bf with
   | some b =>
     if !hasMissing then
-      let m := onSt m fun s => { s with done := b }
+      let m := onSt m fun s => ({ s with done := b }).markPaddingPieces
       let (s, c) := m.1.checkCompletion
       let m : M := (s, m.2)
       if c && m.1.cfg.stopAfter then onSt m (·.stop false) else ready m
-    else if !hasExisting then
-      ready (onSt m fun s => { s with bf := some (List.replicate s.n false) })
+    else if !hasExisting then fresh m
     else onSt m fun s => { s with verifier := true }
   | none =>
-    if !hasExisting then
-      ready (onSt m fun s => { s with bf := some (List.replicate s.n false) })
+    if !hasExisting then fresh m
     else onSt m fun s => { s with verifier := true }
 
 /-- `handleVerificationDone(ve)` for a successful verification; the verifier's bitfield is the
 truth about the disk. -/
 def handleVerificationDone (m : M) : M :=
-  let m := onSt m fun s => { s with verifier := false, bf := some s.diskOK }
+  let m := onSt m fun s => { s with verifier := false, bf := some s.diskOK, tainted := false }
   let m := onSt m (·.writeBitfield)
   let m := onSt m fun s => { s with done := (List.range s.n).map fun i => s.done.getD i false || s.diskOK.getD i false }
-  let m := onSt m fun s => if !allTrue s.diskOK then { s with completed := false } else s
+  let m := onSt m fun s => if !allTrue s.diskOK then s.resetCompletion else s
   if m.1.doVerify then
     onSt m fun s => ({ s with doVerify := false }).stop false
   else
@@ -450,7 +472,8 @@ def allocatorRun (m : M) : M :=
     let m := onSt m fun s =>
       { s with sto := s.sto ++ data.map (fun i =>
                  s!"open:{fileName s.cfg i}:{s.cfg.flens.getD i 0}:" ++ (if s.fileExists.getD i false then "existed" else "new")),
-               fileExists := (List.range s.cfg.flens.length).map fun i => s.fileExists.getD i false || data.contains i }
+               fileExists := (List.range s.cfg.flens.length).map (fun i => s.fileExists.getD i false || data.contains i),
+               known := (List.range s.cfg.flens.length).map (fun i => s.known.getD i false || data.contains i) }
     handleAllocationDone m hasExisting hasMissing
 
 /-- Storage calls of the piece writer for job `w`, and the resulting handler. -/
@@ -630,7 +653,7 @@ def acceptPeer (m : M) (k : Nat) (ip : String) (fast ext badHash dupId : Bool) :
   if s.peers.length ≥ s.cfg.maxAccept then (m, "refused-closed")
   else if s.peers.any (·.ip = ip) then (m, "refused-closed")
   else if s.banned.contains ip then (m, "refused-closed")
-  else if badHash then (m, "refused")          -- failed handshake: the socket is not closed by the loop
+  else if badHash then (m, "refused-closed")   -- failed handshake: the loop closes the socket (fix for F06)
   else if dupId then (m, "refused-closed")
   else
     let p : Peer := { k := k, ip := ip, fast := fast, ext := ext,
@@ -638,6 +661,28 @@ def acceptPeer (m : M) (k : Nat) (ip : String) (fast ext badHash dupId : Bool) :
     let m := onSt m fun s => { s with peers := s.peers ++ [p] }
     let m := (firstMessages s p).foldl (fun m x => send m k x) m
     (m, "accepted")
+
+/-! ### External changes to the files while the torrent is stopped -/
+
+inductive Mut | delete | corrupt (off : Nat) | fill
+  deriving Repr
+
+/-- `mutate file=… how=…` of the harness: acts on files the storage knows. -/
+def mutate (s : St) (file : Option Nat) (how : Mut) : St :=
+  let files := (List.range s.cfg.flens.length).filter fun f =>
+    s.known.getD f false && !(s.cfg.fpads.getD f false) && (match file with | some x => x = f | none => true)
+  files.foldl (fun s f =>
+    match how with
+    | .delete =>
+      { s with fileExists := s.fileExists.set f false,
+               bad := (s.bad.filter fun b => b.2 ≠ f) ++ (s.cfg.dataSects.filter fun b => b.2 = f) }
+    | .corrupt off =>
+      if !(s.fileExists.getD f false) || off ≥ s.cfg.flens.getD f 0 then s else
+      let hit := (List.range s.n).filter fun i =>
+        (s.cfg.sections i).any fun sc => sc.file = f && sc.off ≤ off && off < sc.off + sc.len
+      { s with bad := s.bad ++ (hit.map fun i => (i, f)).filter (fun b => !(s.bad.contains b)), tainted := true }
+    | .fill =>
+      { s with fileExists := s.fileExists.set f true, bad := s.bad.filter fun b => b.2 ≠ f }) s
 
 /-! ### Reconciliation with the implementation's choice of downloads (piece picker) -/
 
